@@ -156,6 +156,8 @@ def main(arg=None):
         fam = [["C01", "C02", "C03", "C05", "C11", "C10", "C04"], ["C06", "C07", "C08", "C09", "C15", "C17", "C20", "C01"], ["C19"]]
         own = list(props)
         for f in fam:
+            if os.environ.get("VERIF_MUT_OWN_ONLY"):
+                break
             if own[0] in f:
                 props = own + [x for x in f if x not in own]
         caught = None
